@@ -10,10 +10,9 @@ from ..report import Check
 from .common import calls_in, guards_of, need_locals, returns_of
 
 
-def r03_a(prog: Program, chk: Check) -> None:
-    chk.rule("R03.a", "numeric promotion table: artificial bases are exactly int->float, int->complex, float->complex and are merged into base_classes", floor=5)
+def promotion_edges(prog: Program) -> Set[Tuple[str, str]]:
+    """(sub, sup) pairs that TypeObject.__post_init__ adds as artificial bases."""
     fn = prog.func("type_object", "TypeObject.__post_init__")
-    site = prog.site("type_object", fn)
     edges: Set[Tuple[str, str]] = set()
     for n in walk_no_nested(fn):
         if not isinstance(n, ast.If):
@@ -33,6 +32,14 @@ def r03_a(prog: Program, chk: Check) -> None:
         for s in n.body:
             if isinstance(s, ast.Expr) and isinstance(s.value, ast.Call) and norm(s.value.func) == "self.artificial_bases.add" and s.value.args:
                 edges.add((guard_cls, norm(s.value.args[0])))
+    return edges
+
+
+def r03_a(prog: Program, chk: Check) -> None:
+    chk.rule("R03.a", "numeric promotion table: artificial bases are exactly int->float, int->complex, float->complex and are merged into base_classes", floor=5)
+    fn = prog.func("type_object", "TypeObject.__post_init__")
+    site = prog.site("type_object", fn)
+    edges = promotion_edges(prog)
     want = {("int", "float"), ("int", "complex"), ("float", "complex")}
     thrift = {("<thrift enum>", "int")}
     for e in sorted(want):
